@@ -122,6 +122,10 @@ type Sim struct {
 	lpos   string
 	lgate  chan struct{}
 	rgate  map[int64]chan struct{}
+	// gate:complete (under j.mu): the next completion handler is held when holdC is set
+	holdC bool
+	cgate chan struct{}
+	cheld bool
 }
 
 var (
@@ -234,7 +238,14 @@ func (s *Sim) hook(seq uint64, point string, kv []interface{}) {
 	}
 	s.events = append(s.events, ev)
 	var gate chan struct{}
-	if s.gated && strings.HasPrefix(point, "gate:") {
+	if point == "gate:complete" {
+		if s.holdC {
+			s.holdC = false
+			s.cheld = true
+			gate = make(chan struct{})
+			s.cgate = gate
+		}
+	} else if s.gated && strings.HasPrefix(point, "gate:") {
 		gate = make(chan struct{})
 		if point == "gate:run" {
 			s.rgate[jid] = gate
@@ -322,6 +333,11 @@ func (s *Sim) Close(stuck bool) {
 		close(g)
 		delete(s.rgate, k)
 	}
+	if s.cgate != nil {
+		close(s.cgate)
+		s.cgate = nil
+	}
+	s.holdC = false
 	s.mu.Unlock()
 	if stuck {
 		s.V.CloseNoWait()
@@ -342,6 +358,47 @@ func (s *Sim) Close(stuck bool) {
 	}
 	simsMu.Unlock()
 	os.RemoveAll(s.dir)
+}
+
+// HoldNextCompletion makes the next completion handler stop right after it has taken j.mu.
+func (s *Sim) HoldNextCompletion() {
+	s.mu.Lock()
+	s.holdC = true
+	s.cheld = false
+	s.mu.Unlock()
+}
+
+// CompletionHeld reports whether a completion handler is held under j.mu.
+func (s *Sim) CompletionHeld() bool {
+	s.mu.Lock()
+	defer s.mu.Unlock()
+	return s.cheld
+}
+
+// ReleaseCompletion lets the held completion handler continue.
+func (s *Sim) ReleaseCompletion() {
+	s.mu.Lock()
+	g := s.cgate
+	s.cgate = nil
+	s.cheld = false
+	s.holdC = false
+	s.mu.Unlock()
+	if g != nil {
+		close(g)
+	}
+}
+
+// ClusterLockBusy reports whether c.mu is write-locked (or a writer waits): a State()
+// call does not return promptly.
+func (s *Sim) ClusterLockBusy(probe time.Duration) bool {
+	ch := make(chan struct{})
+	go func() { _ = s.V.State(); close(ch) }()
+	select {
+	case <-ch:
+		return false
+	case <-time.After(probe):
+		return true
+	}
 }
 
 // ListenerPos returns the gate the listener is held at ("" while it runs).
